@@ -1,5 +1,6 @@
 import RuxModel.Drv.Common
 import RuxModel.Model.Table
+import RuxModel.Model.Quick
 /-
   driver engine `route`: registration + lookup + dispatch status of the route table model.
 
@@ -29,19 +30,6 @@ def RouteSt.skip (st : RouteSt) (p : Bytes) : Bool :=
   st.tainted || (st.runeSens && (p.any (· ≥ 0x80) || st.rt.opts.intercept.any (· ≥ 0x80)))
 
 def bit (mask k : Nat) : Bool := (mask / k) % 2 = 1
-
-/-- insertion sort of byte strings (lexicographic on bytes, like Go's `sort.Strings`) -/
-def bytesLt : Bytes → Bytes → Bool
-  | [], [] => false
-  | [], _ :: _ => true
-  | _ :: _, [] => false
-  | a :: s, b :: t => if a < b then true else if a > b then false else bytesLt s t
-
-def insertSorted (x : Bytes) : List Bytes → List Bytes
-  | [] => [x]
-  | y :: t => if bytesLt y x then y :: insertSorted x t else x :: y :: t
-
-def sortBytes (l : List Bytes) : List Bytes := l.foldr insertSorted []
 
 def insertParam (x : Bytes × Bytes) : List (Bytes × Bytes) → List (Bytes × Bytes)
   | [] => [x]
